@@ -963,7 +963,23 @@ pub fn pattern_strategy(o: &GenOpts) -> BoxedStrategy<Vec<Stmt>> {
             }
             s
         });
-    prop_oneof![dedup, fusion].boxed()
+    // --- an input read by a non-primitive op before a later ALU op (re)defines its slot:
+    //     p private; r = recompose(p, .., p); q = x * 1 + 0 with x public = p; connect(p, q)
+    let heal = (co_strategy(), any::<bool>()).prop_map(move |(cv, public_side)| {
+        let v = Val(vec![cv]);
+        let last_base = REL_BASE - 1; // ExtRecomp picks among base-valued nodes: the newest
+        let mut s = vec![
+            if public_side { Stmt::Public(v.clone()) } else { Stmt::Private(v.clone()) },
+            Stmt::ExtRecomp(vec![last_base; 5]),
+            if public_side { Stmt::Private(v) } else { Stmt::Public(v) },
+            Stmt::Const(Val(vec![Co::One])),
+            Stmt::MulAdd(rel(1), rel(0), ExprIdx::ZERO),
+            Stmt::Connect(rel(4), rel(0)),
+        ];
+        s.push(Stmt::Mul(rel(3), rel(0)));
+        s
+    });
+    prop_oneof![4 => dedup, 4 => fusion, 1 => heal].boxed()
 }
 
 struct ExprIdx;
